@@ -189,6 +189,8 @@ type SimResponseWriter struct {
 	Frozen     http.Header
 	Status     int
 	HeaderCall int
+	// Informational counts 1xx WriteHeader calls (they do not freeze the headers)
+	Informational int
 }
 
 func NewSimResponseWriter(w *SimWriter) *SimResponseWriter {
@@ -209,6 +211,11 @@ func (rw *SimResponseWriter) freeze(status int) {
 
 func (rw *SimResponseWriter) WriteHeader(status int) {
 	rw.HeaderCall++
+	if status >= 100 && status < 200 && status != 101 {
+		// informational responses (103 Early Hints) do not end the header phase
+		rw.Informational++
+		return
+	}
 	rw.freeze(status)
 }
 
